@@ -44,6 +44,10 @@ type c09Case struct {
 	// hello-unserved-method: the name the (otherwise valid) handshake asks for; WS: over the CDN transport
 	Method string `json:",omitempty"`
 	WS     bool   `json:",omitempty"`
+	// hello-early-replayed: a genuine handshake of an authorised user whose clock is that far ahead is presented before
+	// its window opens (and relayed); the same bytes come again when the server clock has caught up: a hello the server
+	// has seen before is not fresh, whoever sends it now - relayed again
+	EarlySkewMs int64 `json:",omitempty"`
 }
 
 func unb64(s string) []byte {
@@ -134,12 +138,20 @@ func c09Inner(c c09Case) (vk.Result, error) {
 	}
 	if c.ReplayFirst {
 		// the same first packet is presented once and accepted (it is genuine); the case itself is then a replay
+		if c.EarlySkewMs > 0 {
+			warmup.Store(true) // this first presentation is relayed too (timestamp ahead of the window); not the subject here
+		}
 		d := srv.dialer()
 		conn, _ := d.Dial("tcp", "x")
 		conn.Write(P)
 		synctest.Wait()
 		conn.Close()
 		synctest.Wait()
+		if c.EarlySkewMs > 0 {
+			time.Sleep(time.Duration(c.EarlySkewMs)*time.Millisecond - 10*time.Second)
+			warmup.Store(false)
+			res.Labels = append(res.Labels, "presented-before-its-window-then-again-inside-it")
+		}
 	}
 	if c.EarlierPort != 0 {
 		warmup.Store(true)
@@ -396,13 +408,17 @@ func c09Credentialed(class string) bool {
 func c09Gen(t *testing.T) func(rt *rapid.T) c09Case {
 	return func(rt *rapid.T) c09Case {
 		bases := c07GetBases(t)
-		c := c09Case{Class: rapid.SampledFrom([]string{"random", "tls-length", "hello-mutated", "hello-ext-mutated", "hello-ext-mutated", "hello-wrongkey", "hello-truncated", "hello-replayed", "hello-unserved-method", "hello-unknown-uid", "http", "http", "http-nonewline"}).Draw(rt, "class")}
+		c := c09Case{Class: rapid.SampledFrom([]string{"random", "tls-length", "hello-mutated", "hello-ext-mutated", "hello-ext-mutated", "hello-wrongkey", "hello-truncated", "hello-replayed", "hello-early-replayed", "hello-unserved-method", "hello-unknown-uid", "http", "http", "http-nonewline"}).Draw(rt, "class")}
+		if c.Class == "hello-early-replayed" {
+			c.EarlySkewMs = rapid.SampledFrom([]int64{200000, 300000, 500000}).Draw(rt, "earlyskew")
+			c.WS = rapid.IntRange(0, 3).Draw(rt, "earlyws") == 0
+		}
 		var P []byte
 		if c.Class == "hello-unserved-method" {
 			c.Method = rapid.SampledFrom([]string{"tor", "Shadowsocks", "SHADOWSOCKS", "shadowsock", "shadowsocks2"}).Draw(rt, "unserved")
 			c.WS = rapid.IntRange(0, 3).Draw(rt, "ws") == 0
 		}
-		if c.Class == "hello-wrongkey" || c.Class == "hello-replayed" || c09Credentialed(c.Class) {
+		if c.Class == "hello-wrongkey" || c.Class == "hello-replayed" || c.Class == "hello-early-replayed" || c09Credentialed(c.Class) {
 			// produced inside the case (needs the bubble clock): marker stream, replaced by the runner
 			P = nil
 		} else {
@@ -439,7 +455,7 @@ func c09Run(t *testing.T) func(c c09Case) (vk.Result, error) {
 		var verr error
 		berr := vk.Bubble(t, func() {
 			res, verr = vk.Protect(func() (vk.Result, error) {
-				if c.Class == "hello-wrongkey" || c.Class == "hello-replayed" || c09Credentialed(c.Class) {
+				if c.Class == "hello-wrongkey" || c.Class == "hello-replayed" || c.Class == "hello-early-replayed" || c09Credentialed(c.Class) {
 					// build the genuine-looking hello inside the bubble so that its timestamp is current
 					pub := vStaticPub
 					if c.Class == "hello-wrongkey" {
@@ -453,12 +469,16 @@ func c09Run(t *testing.T) func(c c09Case) (vk.Result, error) {
 					case "hello-unknown-uid":
 						c08CaptureUID = "c09-nobody-knows"
 					}
-					first, _, err := c08Capture(pub, c.WS, "firefox", 0)
+					skew := time.Duration(0)
+					if c.Class == "hello-early-replayed" {
+						skew = time.Duration(c.EarlySkewMs) * time.Millisecond
+					}
+					first, _, err := c08Capture(pub, c.WS, "firefox", skew)
 					c08CaptureUID, c08CaptureMethod = "c08-bypass-user!", "shadowsocks"
 					if err != nil {
 						return vk.Result{}, fmt.Errorf("harness: %v", err)
 					}
-					c.ReplayFirst = c.Class == "hello-replayed"
+					c.ReplayFirst = c.Class == "hello-replayed" || c.Class == "hello-early-replayed"
 					// keep the generated segmentation pattern: re-cut the real packet at the same number of places
 					n := len(c.Segs)
 					segs := make([]c09Seg, 0, n)
